@@ -1,9 +1,13 @@
 import PdshVerif.Opt.Wcoll
 
 /-! GHOST: the streams `read_wcoll` opens itself (`fopen (file, "r")` for a `^file` / `-^file` argument and for
-WCOLL).  As found, `read_wcoll` never closes them (F10-TOPFD: one descriptor per file source stays open until
-pdsh exits; `closeTop = true` is the code with `fclose (fp)` added).  The count is threaded NEXT to the option
-processing of `Opt/Wcoll.lean` and erasable: the first component is `assembleOpts` itself. -/
+WCOLL).  THE CODE (since /repo 8d15944: `if (f == NULL) fclose (fp);` after `wcoll_ctx_read_stream`) closes every
+one of them before it returns: that is `leak = false`, the form the driver runs unless the check's probe finds
+the older reader.  `leak = true` is `read_wcoll` BEFORE that commit (F10-TOPFD: the stream was never closed, one
+descriptor per file source stayed open until pdsh exits); it is kept so that a tree that loses the `fclose` again
+is still described exactly (`top_streams_leak_witness`) and reported with the command line that exhausts the
+descriptors.  The count is threaded NEXT to the option processing of `Opt/Wcoll.lean` and erasable: the first
+component is `assembleOpts` itself. -/
 namespace PdshVerif.Opt.Wcoll
 
 /-- does `wcoll_arg_process (arg)` reach `read_wcoll (file, NULL)` with a file it can open? -/
@@ -14,70 +18,70 @@ def topOpens (fs : FS) (arg : Str) : Nat :=
   | _ => 0
 
 /-- streams left open by one argument -/
-def leftOpen (closeTop : Bool) (fs : FS) (st : St) (arg : Str) : Nat :=
-  if st.fatal || closeTop then 0 else topOpens fs arg
+def leftOpen (leak : Bool) (fs : FS) (st : St) (arg : Str) : Nat :=
+  if st.fatal || !leak then 0 else topOpens fs arg
 
-def argProcessT (closeTop : Bool) (mode : LineMode) (fs : FS) (s : St × Nat) (arg : Str) : St × Nat :=
-  (argProcess mode fs s.1 arg, s.2 + leftOpen closeTop fs s.1 arg)
+def argProcessT (leak : Bool) (mode : LineMode) (fs : FS) (s : St × Nat) (arg : Str) : St × Nat :=
+  (argProcess mode fs s.1 arg, s.2 + leftOpen leak fs s.1 arg)
 
 def optArgsOf : Opt → List Str
   | .w a => if a = ['-'] then [['^', '-']] else listSplit [','] a
   | .x a => (listSplit [','] a).map ('-' :: ·)
 
-def optProcessT (closeTop : Bool) (mode : LineMode) (fs : FS) (s : St × Nat) (o : Opt) : St × Nat :=
-  (optArgsOf o).foldl (argProcessT closeTop mode fs) s
+def optProcessT (leak : Bool) (mode : LineMode) (fs : FS) (s : St × Nat) (o : Opt) : St × Nat :=
+  (optArgsOf o).foldl (argProcessT leak mode fs) s
 
 /-- `assembleOpts` with the ghost count of streams `read_wcoll` left open -/
-def assembleOptsT (closeTop : Bool) (mode : LineMode) (fs : FS) (stdin : Str) (opts : List Opt)
+def assembleOptsT (leak : Bool) (mode : LineMode) (fs : FS) (stdin : Str) (opts : List Opt)
     (wcollEnv : Option Str) : St × Nat :=
-  let s := opts.foldl (optProcessT closeTop mode fs) ({ stdin := stdin }, 0)
+  let s := opts.foldl (optProcessT leak mode fs) ({ stdin := stdin }, 0)
   if s.1.fatal || s.1.created then s
   else match wcollEnv with
     | none => s
     | some f => (absorb s.1 false (readWcoll mode fs s.1.stdin f),
-        s.2 + (if closeTop then 0 else if f ≠ ['-'] ∧ canRead fs f then 1 else 0))
+        s.2 + (if leak ∧ f ≠ ['-'] ∧ canRead fs f then 1 else 0))
 
-theorem foldl_argProcessT_fst (closeTop : Bool) (mode : LineMode) (fs : FS) :
+theorem foldl_argProcessT_fst (leak : Bool) (mode : LineMode) (fs : FS) :
     ∀ (args : List Str) (s : St × Nat),
-      (args.foldl (argProcessT closeTop mode fs) s).1 = args.foldl (argProcess mode fs) s.1
+      (args.foldl (argProcessT leak mode fs) s).1 = args.foldl (argProcess mode fs) s.1
   | [], _ => rfl
   | a :: as, s => by
     simp only [List.foldl_cons]
-    rw [foldl_argProcessT_fst closeTop mode fs as]
+    rw [foldl_argProcessT_fst leak mode fs as]
     rfl
 
-theorem optProcessT_fst (closeTop : Bool) (mode : LineMode) (fs : FS) (s : St × Nat) (o : Opt) :
-    (optProcessT closeTop mode fs s o).1 = optProcess mode fs s.1 o := by
+theorem optProcessT_fst (leak : Bool) (mode : LineMode) (fs : FS) (s : St × Nat) (o : Opt) :
+    (optProcessT leak mode fs s o).1 = optProcess mode fs s.1 o := by
   cases o with
   | w a =>
     simp only [optProcessT, optArgsOf, optProcess, optargProcess]
     split
     · simp [argProcessT]
-    · exact foldl_argProcessT_fst closeTop mode fs _ s
+    · exact foldl_argProcessT_fst leak mode fs _ s
   | x a =>
     simp only [optProcessT, optArgsOf, optProcess, xargProcess]
     rw [foldl_argProcessT_fst, List.foldl_map]
 
-theorem foldl_optProcessT_fst (closeTop : Bool) (mode : LineMode) (fs : FS) :
+theorem foldl_optProcessT_fst (leak : Bool) (mode : LineMode) (fs : FS) :
     ∀ (opts : List Opt) (s : St × Nat),
-      (opts.foldl (optProcessT closeTop mode fs) s).1 = opts.foldl (optProcess mode fs) s.1
+      (opts.foldl (optProcessT leak mode fs) s).1 = opts.foldl (optProcess mode fs) s.1
   | [], _ => rfl
   | o :: os, s => by
     simp only [List.foldl_cons]
-    rw [foldl_optProcessT_fst closeTop mode fs os, optProcessT_fst]
+    rw [foldl_optProcessT_fst leak mode fs os, optProcessT_fst]
 
 /-- the ghost is erasable: the option processing is `assembleOpts` -/
-theorem assembleOptsT_fst (closeTop : Bool) (mode : LineMode) (fs : FS) (stdin : Str) (opts : List Opt)
+theorem assembleOptsT_fst (leak : Bool) (mode : LineMode) (fs : FS) (stdin : Str) (opts : List Opt)
     (env : Option Str) :
-    (assembleOptsT closeTop mode fs stdin opts env).1 = assembleOpts mode fs stdin opts env := by
+    (assembleOptsT leak mode fs stdin opts env).1 = assembleOpts mode fs stdin opts env := by
   simp only [assembleOptsT, assembleOpts]
-  rw [← foldl_optProcessT_fst closeTop mode fs opts ({ stdin := stdin }, 0)]
+  rw [← foldl_optProcessT_fst leak mode fs opts ({ stdin := stdin }, 0)]
   split
   · rfl
   · split <;> rfl
 
 theorem foldl_argProcessT_closed (mode : LineMode) (fs : FS) :
-    ∀ (args : List Str) (s : St × Nat), (args.foldl (argProcessT true mode fs) s).2 = s.2
+    ∀ (args : List Str) (s : St × Nat), (args.foldl (argProcessT false mode fs) s).2 = s.2
   | [], _ => rfl
   | a :: as, s => by
     simp only [List.foldl_cons]
@@ -85,7 +89,7 @@ theorem foldl_argProcessT_closed (mode : LineMode) (fs : FS) :
     simp [argProcessT, leftOpen]
 
 theorem foldl_optProcessT_closed (mode : LineMode) (fs : FS) :
-    ∀ (opts : List Opt) (s : St × Nat), (opts.foldl (optProcessT true mode fs) s).2 = s.2
+    ∀ (opts : List Opt) (s : St × Nat), (opts.foldl (optProcessT false mode fs) s).2 = s.2
   | [], _ => rfl
   | o :: os, s => by
     simp only [List.foldl_cons]
